@@ -516,7 +516,7 @@ func init() {
 	vk.Register(&vk.Spec{
 		ID:    "C17",
 		Level: "exploration",
-		Rule: "sequential: PRNG histories (TCP open/auth/close, unauthenticated open/close, UDP add/remove, several tunnels per client, clock advances incl. zero, scrapes anywhere) against the real collectors with the clock hook; after each scrape reported per-key and per-location seconds are compared with an independent interval-union account; " +
+		Rule: "sequential: PRNG histories (TCP open/auth/close, unauthenticated open/close, UDP add/remove, several tunnels per client, clock advances incl. zero, scrapes anywhere) against the real collectors with the clock hook; after each scrape reported per-key and per-location seconds are compared with an independent interval-union account (incl. zoned link-local clients); end to end: real handlers + collectors, refused replays/probes held open across clock jumps, UDP association open at listener shutdown; " +
 			"concurrent: ticking clock, opens/closes from 4..11 goroutines (own or shared clients) against a scrape loop, totals checked against bounds from clock readings around every call; class = (phase, #ips, #keys, history length bucket, features seen: overlap/unauthenticated/scrape-while-active/idle)",
 		Assumptions: []string{"clock hook H1 (prometheus.VerifSetNow) replaces the collectors' time source", "fake IP database labels locations deterministically"},
 		Batches:     func(t string) int { return map[string]int{"quick": 6, "thorough": 24}[t] },
